@@ -42,7 +42,7 @@ REACH = {
               "container_reread": 1000, "fresh_process_rereads": 100},
     "thorough": {"forms_compared": 500000},
 }
-OPS = ["binary", "container", "json", "validate", "pcf", "fingerprint", "generate"]
+OPS = ["binary", "container", "json", "validate", "pcf", "fingerprint", "generate", "resolve"]
 
 
 def plan(tier, seed):
@@ -177,7 +177,7 @@ def obs(fn):
     return ("ok", v)
 
 
-def run_ops(fa, schema, data, seed, rereads, skip_generate=False):
+def run_ops(fa, schema, data, seed, rereads, skip_generate=False, raw=None):
     from fastavro.schema import to_parsing_canonical_form, fingerprint
     from fastavro.utils import generate_many
 
@@ -210,6 +210,25 @@ def run_ops(fa, schema, data, seed, rereads, skip_generate=False):
         return [json.loads(l) for l in txt.split("\n")] if txt else [], list(fa.json_reader(io.StringIO(txt), schema))
 
     out["json"] = obs(jsonrt)
+
+    def resolve():
+        # bytes written under the raw schema, read with this form on the reader side and on the writer side
+        from .c03 import reader_variant
+
+        res = []
+        other = reader_variant(raw)
+        for d in data:
+            b = io.BytesIO()
+            fa.schemaless_writer(b, copy.deepcopy(raw), d)
+            enc = b.getvalue()
+            res.append(fa.schemaless_reader(io.BytesIO(enc), copy.deepcopy(raw), schema))
+            res.append(fa.schemaless_reader(io.BytesIO(enc), schema, other))
+        fo = io.BytesIO()
+        fa.writer(fo, copy.deepcopy(raw), list(data))
+        res.append(list(fa.reader(io.BytesIO(fo.getvalue()), reader_schema=schema)))
+        return res
+
+    out["resolve"] = obs(resolve) if raw is not None else ("ok", None)
     out["validate"] = obs(lambda: [fa.validate(d, schema, raise_errors=False) for d in data] + [fa.validate(object, schema, raise_errors=False)])
     out["pcf"] = obs(lambda: to_parsing_canonical_form(schema))
     out["fingerprint"] = obs(lambda: fingerprint(to_parsing_canonical_form(schema), "CRC-64-AVRO"))
@@ -276,7 +295,7 @@ def one_case(sh, fa, rng, case, reread_log, only_subset=None):
     sh.count("idempotence_checked")
     rr = []
     skipgen = "recursive" in known.schema_traits(js)
-    base = run_ops(fa, copy.deepcopy(js), data, seed, rr, skipgen)
+    base = run_ops(fa, copy.deepcopy(js), data, seed, rr, skipgen, js)
     forms = [("parsed", parsed, ())]
     sep = separable(js)[:4]
     subsets = [s for k in range(1, len(sep) + 1) for s in itertools.combinations(sep, k)]
@@ -307,7 +326,7 @@ def one_case(sh, fa, rng, case, reread_log, only_subset=None):
         sh.count("nonempty_splits")
     for name, schema, subset in forms:
         rr2 = []
-        o = run_ops(fa, schema, data, seed, rr2, skipgen)
+        o = run_ops(fa, schema, data, seed, rr2, skipgen, js)
         for op in OPS:
             sh.count("forms_compared")
             sh.case(h64(schema_shape(js), len(subset), op) if op == "binary" else None, bool(subset) or op != "parse")
